@@ -224,7 +224,9 @@ func propC07(c *Check) {
 			}
 		}
 	}
-	c.Floor("R2", "map ranges in consensus code", nRanges, 1)
+	// no floor: a tree without any map range in consensus code satisfies the rule (the rule's sensitivity is
+	// exercised by the mutant corpus, which adds such loops)
+	c.Held("R2", "map ranges in consensus code", "", fmt.Sprintf("%d map-range loops reachable from deterministic entry points were examined", nRanges))
 
 	c.noGlobalWrites("R3")
 
